@@ -15,7 +15,7 @@ META = {
     'technique': 'shape-case abstract interpretation (heap of symbolic field/paragraph objects) of the re-ordering, replace/delete and '
                  'paragraph insert/append methods of the format-preserving document classes, compared case by case with a reference list '
                  'model; effect-ordering rule (the final-newline helper runs before the first mutation and on the right element) observed '
-                 'on the same interpreter; direction table for bulk relocation as a cross-check; path rule (locals substituted away) for the occurrence looked up by set_field_from_raw_string; append/insert interpreted on documents ending with an empty paragraph, an unterminated comment or an unterminated blank line; obligations on set_kvpair_element (the element that is set is terminated; replace-all by a later occurrence keeps it attached) and a frame obligation on delete (no other field changes); ownership scenario: an element placed in another paragraph keeps its parent link when the field is removed or replaced here; the final-newline helper interpreted on paragraphs whose last field is a later occurrence of a repeated name; copies of paragraphs are free paragraphs; copy.deepcopy of a document made as the copy module makes it (the __deepcopy__ of the class interpreted when it has one, weak links copied as they are) followed by insert / append of a paragraph of either document into either document; a class that keeps a linked list next to a table of its nodes defines its own copy protocol; the private attributes of the key set are read off its constructor by role',
+                 'on the same interpreter; direction table for bulk relocation as a cross-check; path rule (locals substituted away) for the occurrence looked up by set_field_from_raw_string; append/insert interpreted on documents ending with an empty paragraph, an unterminated comment or an unterminated blank line; obligations on set_kvpair_element (the element that is set is terminated; replace-all by a later occurrence keeps it attached) and a frame obligation on delete (no other field changes); ownership scenario: an element placed in another paragraph keeps its parent link when the field is removed or replaced here; the final-newline helper interpreted on paragraphs whose last field is a later occurrence of a repeated name; copies of paragraphs are free paragraphs; copy.deepcopy of a document made as the copy module makes it (the __deepcopy__ of the class interpreted when it has one, weak links copied as they are) followed by insert / append of a paragraph of either document into either document; a class that keeps a linked list next to a table of its nodes defines its own copy protocol; the private attributes of the key set are read off its constructor by role; whole documents with unique and with repeated field names parsed by the interpreted parser, re-ordered and cut through the interpreted order_* / delete operations (by name and by (name, i)), the text compared after every step with a list model of the field chunks, and (name, i) read against the i-th occurrence of the model',
     'level_text': 'Static decision per shape case (paragraphs with unique and with duplicated names; single, indexed and bulk relocation '
                   'relative to start, end and reference fields at every position; documents with 0..2 paragraphs, trailing separators and '
                   'free comments): the resulting element order equals the reference model, the per-name occurrence lists are in document '
@@ -944,6 +944,114 @@ def r4d_copy_of_a_document(rep, src):
            '%d scenarios (%s)' % (n, 'the __deepcopy__ of the class interpreted' if own is not None else 'copied attribute by attribute'))
 
 
+def r8_reorder_end_to_end(rep, src, tier):
+    """the statement on whole documents: a document with unique and one with repeated field names is parsed by the interpreted parser
+    (sa.heap, the whole pipeline) -- with and without a line end at the end of the document --, its first paragraph is re-ordered through
+    the interpreted order_first / order_last / order_before / order_after (by name, and by (name, i) for one occurrence of a repeated
+    name), an occurrence is deleted, and after EVERY step the text of the document is compared with a list model of the field chunks
+    (comment lines + field lines) kept here: the chunks are permuted or removed, their text is the same byte for byte (a missing line
+    end at the very end supplied), occurrences of a repeated name that move together keep their order, and p[(name, i)] reads the i-th
+    occurrence of the model."""
+    import itertools
+    from .. import heap as H
+    mod = src.mod(PM)
+    f = src.func(PM + ':parse_deb822_file')
+    rep.saw_func(f)
+
+    def world():
+        heap = H.Heap(mod, extra_modules=[src.mod('_deb822_repro.tokens'), src.mod('_deb822_repro._util'), src.mod('_util'), src.mod('_deb822_repro.formatter')],
+                      hooks={'sys.intern': lambda it, a, k: a[0], '_strI': lambda it, a, k: H.Key(a[0].lower(), a[0]) if isinstance(a[0], str) else a[0]})
+        heap.native_regex = True
+        return heap, H.Interp(heap)
+
+    def text_of(it, heap, doc):
+        m_ = mod.method(heap.objs[doc.name]['__class__'], 'convert_to_text')
+        t_ = it.call(H.Closure(m_.node, {}, doc, m_.cls), [])
+        return t_.concrete() if hasattr(t_, 'concrete') else t_
+    UNIQ = [('A', '# about a\nA: 1\n'), ('B', 'B: two\n lines\n'), ('C', 'C:\n'), ('D', '# d1\n# d2\nD: 4\n')]
+    DUP = [('A', 'A: 1\n'), ('X', '# first x\nX: first\n'), ('B', 'B: 2\n'), ('X', 'X: second\n more\n'), ('C', 'C: 3\n'), ('X', 'X: third\n')]
+    TAIL = '\n# free comment\n\nOther: paragraph\n'
+
+    def occ(chunks, name, i):
+        ks = [k_ for k_, (n_, _t) in enumerate(chunks) if n_ == name]
+        return ks[i] if 0 <= i < len(ks) else None
+    OPS_U = [('order_first', 'C', None), ('order_last', 'A', None), ('order_before', 'D', 'A'), ('order_after', 'A', 'C'), ('order_last', 'D', None), ('order_first', 'A', None),
+             ('order_after', 'B', 'D'), ('order_before', 'B', 'C')]
+    OPS_D = [('order_last', 'X', None), ('order_first', 'X', None), ('order_after', ('X', 0), 'C'), ('order_before', ('X', 2), 'A'), ('order_after', ('X', 1), 'A'),
+             ('order_last', ('X', 0), None), ('del', ('X', 1), None), ('order_before', 'X', 'B'), ('order_first', 'B', None), ('del', ('X', 0), None)]
+    n, bad = 0, None
+    for dname, chunks0, ops in (('unique names', UNIQ, OPS_U), ('a repeated name', DUP, OPS_D)):
+        pairs = [list(h_) for h_ in itertools.permutations(ops, 2)]
+        hists = [[o_] for o_ in ops] + (pairs if tier == 'thorough' else pairs[2::13])
+        for final_nl, tail in ((True, TAIL), (False, '')):
+            for hist in (hists if final_nl else hists[:6]):
+                chunks = [list(c_) for c_ in chunks0]
+                if not final_nl:
+                    chunks[-1][1] = chunks[-1][1][:-1]          # the document ends without a line end
+                text0 = ''.join(t_ for _n, t_ in chunks) + tail
+                heap, it = world()
+                n += 1
+                try:
+                    doc = it.call(H.Closure(f.node, {}, None, None), [heap.new_list(text0.splitlines(True))], {'accept_files_with_duplicated_fields': True})
+                    env = {'doc': doc}
+                    it.exec(ast.parse('p = next(iter(doc))').body[0], env, None)
+                except H.Raised as x:
+                    raise AnalysisError('%s: the model document %r is refused by the interpreted parser (%s)' % (f.site, text0, x.exc))
+                done = []
+                for op, key, ref in hist:
+                    name, idx = key if isinstance(key, tuple) else (key, None)
+                    moving = [k_ for k_, (n_, _t) in enumerate(chunks) if n_ == name] if idx is None else ([occ(chunks, name, idx)] if occ(chunks, name, idx) is not None else [])
+                    if not moving or (ref is not None and not any(n_ == ref for n_, _t in chunks)) or (ref == name):
+                        continue          # (an occurrence an earlier step removed)
+                    moved = [chunks[k_] for k_ in moving]
+                    if op != 'del' and not chunks[-1][1].endswith('\n'):
+                        chunks[-1][1] += '\n'          # (something may be placed after the last field)
+                    rest = [c_ for k_, c_ in enumerate(chunks) if k_ not in moving]
+                    if op == 'del':
+                        chunks = rest
+                    elif op == 'order_first':
+                        chunks = moved + rest
+                    elif op == 'order_last':
+                        chunks = rest + moved
+                    else:
+                        at = next(k_ for k_, (n_, _t) in enumerate(rest) if n_ == ref)
+                        if op == 'order_after':
+                            at = max(k_ for k_, (n_, _t) in enumerate(rest) if n_ == ref) + 1 if False else at + 1
+                        chunks = rest[:at] + moved + rest[at:]
+                    call = ('del p[k]' if op == 'del' else 'p.%s(k)' % op if ref is None else 'p.%s(k, r)' % op)
+                    done.append(call.replace('k', repr(key)).replace(', r)', ', %r)' % ref))
+                    try:
+                        it.exec(ast.parse(call.replace('k', '_k_').replace(', r)', ', _r_)')).body[0], dict(env, _k_=key, _r_=ref), None)
+                        got = text_of(it, heap, doc)
+                    except H.Raised as x:
+                        got = 'raises %s (line %d)' % (x.exc, x.lineno)
+                    want = ''.join(t_ for _n, t_ in chunks) + tail
+                    if got != want:
+                        bad = bad or 'the document %r (%s), after %s: %s; the fields of the model give %r' % (
+                            text0, dname, '; '.join(done), got if got.startswith('raises') else 'the text is %r' % got, want)
+                        break
+                    # (name, i) denotes the i-th occurrence in document order
+                    for nm_ in sorted({n_ for n_, _t in chunks}):
+                        ks = [t_ for n_, t_ in chunks if n_ == nm_]
+                        for i_, t_ in enumerate(ks):
+                            try:
+                                v_ = it.ev(ast.parse('p[k]', mode='eval').body, dict(env, k=(nm_, i_)), None)
+                                v_ = v_.concrete() if hasattr(v_, 'concrete') else v_
+                            except H.Raised as x:
+                                v_ = 'raises %s' % x.exc
+                            plain = ''.join(l_ for l_ in t_.splitlines(True) if not l_.startswith('#')).split(':', 1)[1].strip()
+                            if (not isinstance(v_, str) or v_.strip() != plain) and bad is None:
+                                bad = 'the document %r (%s), after %s: p[(%r, %d)] is %r; occurrence %d of %s in the document reads %r' % (text0, dname, '; '.join(done), nm_, i_, v_, i_, nm_, plain)
+                    if bad:
+                        break
+    rep.analysed['paths'] += n
+    what = 're-ordering and deleting fields of a parsed document permutes / removes whole fields, byte for byte (interpreted documents and histories)'
+    if bad:
+        rep.fail('C10.R8', f.site, what, bad, where=f.where)
+    else:
+        rep.ok('C10.R8', f.site, what, '%d histories on documents with unique and with repeated names' % n)
+
+
 def r7_copy_protocol(rep, src):
     """a paragraph that was made by copy.deepcopy() can be appended to a document (C10.R4) and is then a paragraph of the document like any
     other: the class that keeps its fields in a linked list -- which rebuilds itself with new nodes when it is copied (its own
@@ -1208,3 +1316,5 @@ def check(src, rep, tier):
     rep.guard('C10.R3', r_final_newline_helper, src)
     rep.need('C10.R7', 1)
     rep.guard('C10.R7', r7_copy_protocol, src)
+    rep.need('C10.R8', 1)
+    rep.guard('C10.R8', r8_reorder_end_to_end, src, tier)
